@@ -562,6 +562,16 @@ func (w *World) execBlock(bp *BlockPlan) bool {
 	for _, m := range w.Mods {
 		m.OnCommit(w)
 	}
+	for _, f := range bp.Faults {
+		if f.Kind == "restart" || f.Kind == "crash_before_commit" {
+			continue
+		}
+		for _, m := range w.Mods {
+			if h, ok := m.(FaultHandler); ok {
+				h.OnFault(w, f)
+			}
+		}
+	}
 	if !w.Replay && bp.Phase != "genesis" {
 		w.Sched.Blocks = append(w.Sched.Blocks, bp)
 	}
@@ -747,6 +757,11 @@ func (w *World) generate(rng *Rand) {
 		}
 		if w.Cfg.PCrash > 0 && rng.Bool(w.Cfg.PCrash) {
 			bp.Faults = append(bp.Faults, Fault{Kind: "crash_before_commit"})
+		}
+		for _, m := range w.Mods {
+			if g, ok := m.(FaultGen); ok {
+				bp.Faults = append(bp.Faults, g.GenFaults(w, rng)...)
+			}
 		}
 		if !w.execBlock(bp) {
 			return
